@@ -298,7 +298,8 @@ fn covers_nocount_case(ctx: &mut Ctx, t: &Tab, k: usize, cap: usize, tags: &str)
     }
     let ntables = catch_unwind(AssertUnwindSafe(|| {
         let g = fundamental_group(&t.to_partial_dsym());
-        coset_tables(g.nr_generators(), &g.relators, k).count()
+        // lazy iterator: stop as soon as the cap is exceeded
+        coset_tables(g.nr_generators(), &g.relators, k).take(cap + 1).count()
     }))
     .unwrap_or(0);
     if ntables > cap {
